@@ -9,8 +9,37 @@ from ..replay import render_value
 BOUNDS = {"histories": "all sequences of <= 3 operations (thorough 4) over {write k v, write k v' with metadata, remove k} x 2 keys; "
                        "HashSet iteration order nondeterministic (two orders explored)",
           "timestamps": "default wall-clock times (non-decreasing) or explicit symbolic times per record (any u128, any order)",
+          "big_records": "one entry whose record carries up to 300 000 bytes of raw metadata (symbolic length) or a 70 000-byte key",
           "foreign_records": "records and tombstones of other keys pre-placed in the same bucket file",
           "outside": "longer histories; more than two keys + two foreign keys"}
+
+
+def big_record(ctx, which, api):
+    """An entry whose index record is large (tens of kilobytes of raw metadata / a long key): listed exactly as looked up."""
+    scn = ctx.new_scn(api=api)
+    I = scn.s.I
+    D = scn.blob("D", max_len=64)
+    R = scn.blob("R", max_len=300000, min_len=1)
+    tag = "C10:%s:big-record:%s" % (scn.api, which)
+    key = "k" if which == "raw" else "K" * 70000
+    opts = {"time": 5, "raw_metadata": scn.whole(R)} if which == "raw" else {"time": 5}
+    if scn.write("small", b"x").kind != "ok":
+        return
+    r = scn.open(key, opts)
+    if r.kind != "ok" or scn.hwrite_all(r.handle, scn.whole(D)).kind != "ok" or scn.commit(r.handle).kind != "ok":
+        return
+    lk = scn.metadata(key)
+    mstep = last(scn)
+    lst = scn.list()
+    lstep = last(scn)
+    if not (expect_ok(ctx, lk, tag + ":lookup", "lookup") and expect_ok(ctx, lst, tag + ":list", "listing")):
+        return
+    found = lk.value.vname == "Some"
+    keys = [it.fields[0].fields[0].sb for it in lst.value.items if it.vname == "Ok"]
+    listed = any(k.is_concrete() and k.concrete() == key.encode() for k in keys)
+    nat = {"kind": "list_agrees", "list_step": lstep, "lookups": {key: mstep}, "exact_keys": sorted([key, "small"])}
+    ctx.expect(found, tag + ":not-found", "the entry with the large record is not found by lookup", native=nat)
+    ctx.expect(listed, tag + ":missing", "the entry with the large record is found by lookup but missing from the listing", native=nat)
 
 
 def listing(ctx, length, first, explicit_time, foreign, odd_keys=False):
@@ -106,6 +135,8 @@ def tasks(tier, flavours):
         for first in ((0, 2) if tier == "quick" else range(6)):
             out.append(dict(module="C10", family="listing", flavour=fl, params=dict(length=3, first=first, explicit_time=True, foreign=False)))
         out.append(dict(module="C10", family="listing", flavour=fl, params=dict(length=2, first=None if tier != "quick" else 1, explicit_time=False, foreign=True)))
+        for which in ("raw", "key"):
+            out.append(dict(module="C10", family="big_record", flavour=fl, params=dict(which=which, api="sync" if fl == "sync" else "async")))
         for first in ((0, 3) if tier == "quick" else range(6)):
             out.append(dict(module="C10", family="listing", flavour=fl, params=dict(length=2 if tier == "quick" else 3, first=first, explicit_time=False, foreign=False, odd_keys=True)))
     return out
